@@ -215,6 +215,26 @@ def join(a, b):
 NP_FUNCS = {"cos": "cos", "sin": "sin", "exp": "exp", "sqrt": "sqrt", "abs": "abs", "fabs": "abs", "absolute": "abs", "log": "log"}
 
 
+class Closure:
+    """a function defined inside the analysed function, with the environment it reads"""
+    def __init__(self, fn, env):
+        self.fn, self.env = fn, env
+
+
+def module_env(module):
+    """the module's functions plus its literal constants (tuples / lists / numbers written out in the source)"""
+    out = dict(module.functions)
+    for k, v in module.constants.items():
+        if k in out:
+            continue
+        try:
+            ast.literal_eval(v)
+        except (ValueError, TypeError, SyntaxError, MemoryError, RecursionError):
+            continue
+        out[k] = v
+    return out
+
+
 class Interp:
     def __init__(self, module_functions=None, max_steps=2000000, rand01=True):
         self.funcs = module_functions or {}
@@ -246,6 +266,9 @@ class Interp:
             return math.e
         if n.id in ("True", "False"):
             return n.id == "True"
+        c = self.funcs.get(n.id)
+        if c is not None and not isinstance(c, (ast.FunctionDef, ast.AsyncFunctionDef)):
+            return self.ev(c, {})        # literal constant of the module (see module_env)
         raise Unsupported("unbound name %s" % n.id)
 
     def e_Attribute(self, n, env):
@@ -635,7 +658,10 @@ class Interp:
             return I(0.0, 1.0)
         if nm == "list" and len(args) == 1:
             return list(self.iterate(args[0]))
-        if nm in self.funcs:
+        if isinstance(n.func, ast.Name) and isinstance(env.get(nm), Closure):
+            c = env[nm]
+            return self.call_function(c.fn, args, kw, outer=c.env)
+        if isinstance(self.funcs.get(nm), ast.FunctionDef):
             return self.call_function(self.funcs[nm], args, kw)
         raise Unsupported("call %s" % text(n.func))
 
@@ -645,8 +671,10 @@ class Interp:
             acc = self.binop(ast.Add, acc, v)
         return acc
 
-    def call_function(self, fn, args, kw=None, self_obj=None):
-        env = {}
+    def call_function(self, fn, args, kw=None, self_obj=None, outer=None):
+        # a nested function reads the enclosing function's variables as they are at the time of the call
+        env = dict(outer) if outer is not None else {}
+        env.pop("__pending_returns__", None)
         params = [a.arg for a in fn.args.args]
         if self_obj is not None:
             env[params[0]] = self_obj
@@ -701,6 +729,10 @@ class Interp:
             raise Ret(None if s.value is None else self.ev(s.value, env))
         elif isinstance(s, ast.Pass):
             return
+        elif isinstance(s, ast.FunctionDef) and not s.decorator_list and not any(
+                isinstance(x, (ast.Nonlocal, ast.Global, ast.Yield, ast.YieldFrom)) for x in ast.walk(s)) \
+                and not (s.args.vararg or s.args.kwarg or s.args.kwonlyargs):
+            env[s.name] = Closure(s, env)
         elif isinstance(s, ast.Raise):
             raise DomainError("explicit raise: %s" % text(s))
         else:
